@@ -431,7 +431,7 @@ func init() {
 		}
 		return p
 	}
-	nontrivialRule["C12"] = "one evaluation = one seeded run of the C11 network with one byzantine relay whose outgoing gossip gets forged gossiper entries (class drawn per run: garbage, honest address with bad signature, valid signatures lifted from other items, own signature under honest addresses, the target itself, all of the target's neighbours, duplicates); every item is judged as in C11, delivery is required for honest nodes with an honest path to the origin; non-trivial = an item travelled two hops and the relay forged at least one list; distinct = trace hash"
+	nontrivialRule["C12"] = "one evaluation = one seeded run of the C11 network with one byzantine relay whose outgoing gossip gets forged gossiper entries (class drawn per run: garbage, honest address with bad signature, valid signatures lifted from other items, own signature under honest addresses, the target itself, all of the target's neighbours, duplicates; or a worthless message naming the item's hash sent to the target ahead of the item); every item is judged as in C11, delivery is required for honest nodes with an honest path to the origin; non-trivial = an item travelled two hops and the relay forged at least one list; distinct = trace hash"
 }
 
 func containsInt(xs []int, x int) bool {
